@@ -10,8 +10,11 @@
 """
 from __future__ import annotations
 
+import contextlib
 import datetime
+import shutil
 import os
+import shutil
 import types
 
 from vlib import core, repo
@@ -54,6 +57,8 @@ def run(ctx):
         registry_caches(ctx, tmp)
         dataset_type_cache(ctx, tmp)
         summary_cache(ctx, built, tmp)
+        dimension_record_cache(ctx, tmp)
+        trust_unstore_cached(ctx, tmp)
 
 
 # ------------------------------------------------------------------ (a) file cache
@@ -429,6 +434,123 @@ def dataset_type_cache(ctx, tmp):
                  "dataset-type-cache-forgets-calibration-table" if all("Assertion" in str(got[k]) for k in diff) else f"dtcache:{seq}",
                  {"kind": "dtcache", "warmup": [list(x) for x in seq], "differs": [str(k) for k in diff[:5]]})
         del bt
+
+
+# ------------------------------------------------------------------ (e) the dimension-record cache and the client's own record writes
+def dimension_record_cache(ctx, tmp):
+    """A client that has the records of the cached elements loaded (instrument, detector, physical_filter, ...) writes records
+    itself — insert, insert(replace=True), sync, sync(update=True) — and must then read what an uncached fresh client reads:
+    through expandDataId and queryDimensionRecords, inside and outside a caching context."""
+    from lsst.daf.butler import Butler
+
+    rng = ctx.rng
+    root = os.path.join(tmp, "dimcache")
+    a = repo.make_butler(root, run="r1")
+    repo.basic_dimensions(a, detectors=(1, 2, 3))
+
+    def viol(what, key, replay):
+        ctx.violations.append(core.Violation(what=what, key=key, replay=replay))
+
+    def view(bt):
+        out = {}
+        for d in (1, 2, 3, 4, 5):
+            try:
+                out[("expand", d)] = bt.registry.expandDataId(instrument="I", detector=d).records["detector"].full_name
+            except Exception as e:
+                out[("expand", d)] = type(e).__name__
+        out["query"] = sorted((r.id, r.full_name, r.purpose) for r in bt.registry.queryDimensionRecords("detector", instrument="I"))
+        out["query2"] = sorted((r.id, r.full_name) for r in bt.query_dimension_records("detector", instrument="I", explain=False))
+        out["filters"] = sorted((r.name, r.band) for r in bt.registry.queryDimensionRecords("physical_filter", instrument="I"))
+        return out
+
+    names = {}
+    for n in range(20 if ctx.quick() else 300):
+        cached = rng.random() < 0.5
+        ops = []
+        with (a.registry.caching_context() if cached else contextlib.nullcontext()):
+            view(a)  # load the caches
+            for _ in range(rng.randint(1, 3)):
+                d = rng.choice([1, 2, 3, 4, 5])
+                how = rng.choice(["sync-update", "sync-update", "replace", "insert", "sync", "filter-sync-update"])
+                new_name = f"d{d}-{n}-{len(ops)}"
+                rec = {"instrument": "I", "id": d, "full_name": new_name, "purpose": rng.choice(["SCIENCE", "GUIDER", None])}
+                try:
+                    if how == "sync-update":
+                        a.registry.syncDimensionData("detector", rec, update=True)
+                    elif how == "sync":
+                        a.registry.syncDimensionData("detector", rec)
+                    elif how == "replace":
+                        a.registry.insertDimensionData("detector", rec, replace=True)
+                    elif how == "insert":
+                        a.registry.insertDimensionData("detector", rec)
+                    else:
+                        a.registry.syncDimensionData("physical_filter", {"instrument": "I", "name": "f", "band": rng.choice(["r", "g", "i"])}, update=True)
+                    ops.append(f"{how} {d}: ok")
+                except Exception as e:
+                    ops.append(f"{how} {d}: {type(e).__name__}")
+            got = view(a)
+            want = view(Butler.from_config(root))
+        ctx.evaluations += 1
+        ctx.count("dimension-record-cache:" + ("cached" if cached else "plain"))
+        ctx.nontrivial.add(("dimcache", tuple(ops)))
+        if got != want:
+            k = next(k_ for k_ in want if got[k_] != want[k_])
+            viol(f"after its own record writes {ops} ({'inside' if cached else 'outside'} a caching context) the client reads {k} = {got[k]}, "
+                 f"a fresh client reads {want[k]}", f"dimension-record-cache:{[o.split(':')[0].split()[0] for o in ops]}",
+                 {"kind": "dimension-record-cache", "ops": ops, "cached": cached})
+            break
+
+
+def trust_unstore_cached(ctx, tmp):
+    """A datastore in trust mode, a dataset whose artifact exists but which the datastore has no records for, its content in the
+    file cache: after pruneDatasets(unstore=True) the client must not go on serving or reporting it from the cache."""
+    from lsst.daf.butler import Butler, Config, DatasetType
+
+    def viol(what, key, replay):
+        ctx.violations.append(core.Violation(what=what, key=key, replay=replay))
+
+    root = os.path.join(tmp, "trustcache")
+    cache_dir = os.path.join(tmp, "trustcache_cache")
+    Butler.makeRepo(root, config=Config({"datastore": {"trust_get_request": True, "cached": {"root": cache_dir, "cacheable": {"default": True}, "default": True}}}))
+    b = Butler.from_config(root, writeable=True, run="r1")
+    repo.basic_dimensions(b, detectors=(1, 2))
+    dt = DatasetType("dt", {"instrument", "detector"}, "StructuredDataDict", universe=b.dimensions)
+    b.registry.registerDatasetType(dt)
+    for with_records in (False, True):
+        ref = b.put({"v": 1}, dt, instrument="I", detector=1 if with_records else 2)
+        uri = b.getURI(ref)
+        if not with_records:
+            b._datastore.forget([ref])  # the artifact stays, the records are gone: trust mode finds it where the template puts it
+        cm = b._datastore.cacheManager
+        # the content in the file cache, as a remote datastore would have put it there on the first get
+        try:
+            copy = os.path.join(tmp, f"trustcache_copy{int(with_records)}.yaml")
+            shutil.copy(uri.ospath, copy)
+            from lsst.resources import ResourcePath
+
+            cm.move_to_cache(ResourcePath(copy), ref)
+        except Exception as e:
+            ctx.notes.append(f"trust-unstore-cached: could not fill the cache ({type(e).__name__}: {str(e)[:80]})")
+            continue
+        known_before = cm.known_to_cache(ref)
+        b.pruneDatasets([ref], unstore=True, disassociate=False, purge=False)
+        ctx.evaluations += 1
+        ctx.count("trust-unstore-cached:" + ("records" if with_records else "no-records"))
+        problems = []
+        if not known_before:
+            ctx.notes.append("trust-unstore-cached: the cache manager did not accept the file (caching disabled?)")
+            continue
+        if cm.known_to_cache(ref):
+            problems.append("the file cache still holds the removed dataset")
+        if os.path.exists(uri.ospath):
+            problems.append("the artifact is still in the datastore")
+        fresh = Butler.from_config(root)
+        if b.stored(ref) != fresh.stored(ref) or b._datastore.exists(ref) != fresh._datastore.exists(ref):
+            problems.append(f"stored() = {b.stored(ref)}, datastore.exists() = {b._datastore.exists(ref)}; a client without this cache answers "
+                            f"{fresh.stored(ref)} / {fresh._datastore.exists(ref)}")
+        if problems:
+            viol(f"trust mode, dataset {'with' if with_records else 'without'} datastore records, content in the file cache, pruneDatasets(unstore=True): "
+                 + "; ".join(problems), f"trust-unstore-cached:{with_records}", {"kind": "trust-unstore-cached", "records": with_records, "problems": problems})
 
 
 # ------------------------------------------------------------------ (d) the summary / record caches against the RegCache model
